@@ -38,7 +38,7 @@ func scenarios() []e3.Scenario {
 		}
 		out = append(out, e3.Scenario{
 			Name: name, Horizon: 30 * time.Second,
-			Policies: []string{""},
+			Policies: []string{vsched.Sticky, ""},
 			Focus:    "~1app",
 			Setup: func(e *e3.Env) {
 				p2, sendErr = nil, nil
@@ -129,7 +129,7 @@ func scenarios() []e3.Scenario {
 func TestCheck(t *testing.T) {
 	vfw.Main(t, "C03", func(c *vfw.Ctx) {
 		c.Level("model_checking")
-		c.Rule("E3: every schedule with <= 2 departures that involve the application's thread (where its steps fall in the otherwise canonical order) of {application: one SendDataMessage (W / no W) started on generation 1, peer: drops generation 1, accepts the re-dial, answers the Select.req, clock: one step} on the real instrumented active connection; oracle: every frame on generation 2's socket is byte for byte the library's Select.req or the application's message exactly as ToBytes() serialises it (with the system bytes it carries)")
+		c.Rule("E3: every schedule with <= 2 sticky departures (a thread passed over stays behind until nothing else can run; plus <= 1 plain departure) that involve the application's thread (where its steps fall in the otherwise canonical order) of {application: one SendDataMessage (W / no W) started on generation 1, peer: drops generation 1, accepts the re-dial, answers the Select.req, clock: one step} on the real instrumented active connection; oracle: every frame on generation 2's socket is byte for byte the library's Select.req or the application's message exactly as ToBytes() serialises it (with the system bytes it carries)")
 		if c.Replay != nil {
 			var r e3.Replay
 			if err := json.Unmarshal(c.Replay, &r); err != nil || r.Scenario == "" {
